@@ -9,25 +9,25 @@ NOTE = ("trusted: go/ssa lowering (x/tools v0.29.0), gosym instruction semantics
 
 # id -> (design section, level text, extra note)
 CLAIMED = {
- "C20": ("3 (C20)", "All prefixes of 2 bytes x all texts of <= 4 (thorough 6) bytes x all 3-chunkings x all short-write points are decided by the solver against a line model of the property; byte values are symbolic so each path covers a class of 256^k texts.", ""),
- "C15": ("3 (C15)", "Order/equality vs exact rational arithmetic for every pair of 64-bit numbers at every (fd1,fd2) in [0,18]^2, Int() exactness, constructors, print/parse round trip at every fd and digit count, and literal parsing for all digit strings of the stated shapes: full 64-bit domain, decided in linear integer arithmetic with explicit wrap-around.", "strconv.FormatUint is modelled by a digit-chain intrinsic"),
- "C14": ("3 (C14)", "Every member sequence of <= 3 (thorough 4) members - names over all equality patterns, explicit/implicit mix, explicit values ranging over all of int64 - is run through the real Set/SetNext and compared with the RFC 7950 9.6.4.2/9.7.4.2 rule stated over exact integers; name/value views checked to be inverse. H14u drives the use site through Parse+Process with the value literal spelled from an arbitrary 64-bit magnitude: the text-to-value conversion must not wrap.", ""),
- "C10": ("3 (C10)", "parseChildRanges (split, min/max substitution, order test, sort, coalesce, subset test, validation) is executed on every restriction skeleton of <= 2 (thorough 3) parts against an arbitrary valid parent set, with all endpoints symbolic over the full 64-bit domain and a universally quantified member x: result set == written set, sorted/disjoint/coalesced, subset of the parent, and acceptance/rejection exactly as the property states; integers/lengths and decimal64 at every fraction-digits. H10b judges one text under two parents in succession (nothing may be remembered); H10syn runs the real number parsers on well-formed, malformed and leniently spelled tokens.", "number parsers stubbed inside H10a/H10b (contract decided by C15); Number.Less summarised; leniently spelled bounds are a KNOWN-FINDING"),
- "C02": ("3 (C02)", "yang.Parse (the whole of lex.go and parse.go, from SSA) is run on every ASCII text of <= 4 (thorough 5) bytes and on four structured families (strings after 15 kinds of line prefix with every body over the bytes the reader distinguishes, token sequences with every boundary spelling, brace nestings, escapes in and outside pattern arguments); acceptance, the whole forest and every argument byte are compared with an independent RFC 7950 section 6 reader written in the harness.", "symbolic bytes assumed ASCII; the reference reader is part of the trusted base"),
- "C16": ("3 (C16)", "Statement positions are recomputed from the text by the reference reader for every accepted text of all C02 universes and for layouts of tabs, CR LF, multi-byte characters, comments and multi-line strings; for single-fault texts of 9 fault kinds after such layouts the first error line must name the offending token, backslash or opener. For 12 kinds of semantic fault (H16c) the leading file:line:col of every build/resolve error must be the start of the statement the property names.", "symbolic bytes assumed ASCII"),
- "C03": ("4 (C03)", "build() is driven directly for every (parent keyword, first child, second child) combination read from the library's own keyword tables (built by its init from the struct tags of the current source), with every mandatory substatement present or one omitted and argument bytes symbolic; the produced node is compared by a generic reflection walk with the statement tree (exactly once, right field, source order, extensions list, name, parent link, back reference); unknown-in-context, repeated single-valued, missing mandatory and non-module roots must be rejected.", "keyword combinations are enumerated by solver-free symbolic choice; the solver's part is the argument bytes"),
+ "C20": ("3 (C20)", "All prefixes of 2 bytes x all texts of <= 4 (thorough 6) bytes x all 3-chunkings x all short-write points are decided by the solver against a line model of the property; byte values are symbolic so each path covers a class of 256^k texts. H20n stacks two writers and uses them in turn: the recorder must receive the one-shot rendering of everything the inner writer was handed.", ""),
+ "C15": ("3 (C15)", "Order/equality vs exact rational arithmetic for every pair of 64-bit numbers at every (fd1,fd2) in [0,18]^2, Int() exactness, constructors, print/parse round trip at every fd and digit count, and literal parsing for all digit strings of the stated shapes: full 64-bit domain, decided in linear integer arithmetic with explicit wrap-around. H15f drives the range-checked integer argument fraction-digits through Parse+Process with an arbitrary 64-bit literal.", "strconv.FormatUint is modelled by a digit-chain intrinsic"),
+ "C14": ("3 (C14)", "Every member sequence of <= 3 (thorough 4) members - names over all equality patterns, explicit/implicit mix, explicit values ranging over all of int64 - is run through the real Set/SetNext and compared with the RFC 7950 9.6.4.2/9.7.4.2 rule stated over exact integers; name/value views checked to be inverse. H14u drives the use site through Parse+Process with the value literal spelled from an arbitrary 64-bit magnitude: the text-to-value conversion must not wrap. Member names range over letters and the zero-length name.", ""),
+ "C10": ("3 (C10)", "parseChildRanges (split, min/max substitution, order test, sort, coalesce, subset test, validation) is executed on every restriction skeleton of <= 2 (thorough 3) parts against an arbitrary valid parent set, with all endpoints symbolic over the full 64-bit domain and a universally quantified member x: result set == written set, sorted/disjoint/coalesced, subset of the parent, and acceptance/rejection exactly as the property states; integers/lengths and decimal64 at every fraction-digits. H10b judges one text under two parents in succession (nothing may be remembered); H10syn runs the real number parsers on well-formed, malformed and leniently spelled tokens. H10u runs the use site (Type.resolve) through Parse+Process with the real parsers: every built-in integer type and length with one (thorough: both) bound an arbitrary 64-bit literal against bounds written from RFC 7950 9.2, derivation chains with a restriction present or absent per level, and decimal64 at every fraction-digits 1..18.", "number parsers stubbed inside H10a/H10b (contract decided by C15); Number.Less summarised; leniently spelled bounds are a KNOWN-FINDING"),
+ "C02": ("3 (C02)", "yang.Parse (the whole of lex.go and parse.go, from SSA) is run on every ASCII text of <= 4 (thorough 5) bytes and on seven structured families (strings after 15 kinds of line prefix with every body over the bytes the reader distinguishes, token sequences with every boundary spelling, brace nestings, escapes in and outside pattern arguments, concatenation of pieces with a symbolic content byte, single-quoted/unquoted/comment bodies with CR and LF, continuation lines that begin with an escape); acceptance, the whole forest and every argument byte are compared with an independent RFC 7950 section 6 reader written in the harness.", "symbolic bytes assumed ASCII; the reference reader is part of the trusted base"),
+ "C16": ("3 (C16)", "Statement positions are recomputed from the text by the reference reader for every accepted text of all C02 universes and for layouts of tabs, CR LF, multi-byte characters, comments and multi-line strings; for single-fault texts of 9 fault kinds after such layouts the first error line must name the offending token, backslash or opener. For 12 kinds of semantic fault (H16c) the leading file:line:col of every build/resolve error must be the start of the statement the property names, also when the file name holds formatting verbs.", "symbolic bytes assumed ASCII"),
+ "C03": ("4 (C03)", "build() is driven directly for every (parent keyword, first child, second child) combination read from the library's own keyword tables (built by its init from the struct tags of the current source), with every mandatory substatement present or one omitted and argument bytes symbolic; the produced node is compared by a generic reflection walk with the statement tree (exactly once, right field, source order, extensions list, name, parent link, back reference); unknown-in-context, repeated single-valued, missing mandatory and non-module roots must be rejected, also as the second top-level statement of a text and right after other builds in the same process; same-keyword siblings stay in source order after the module was filed.", "keyword combinations are enumerated by solver-free symbolic choice; the solver's part is the argument bytes"),
  "C04": ("4 (C04)", "A tree walker (proper tree, parent links incl. rpc input/output, no shared node object, kind/Dir/ListAttr/Type consistency, choice children are cases, no unapplied augment, no recorded error anywhere) runs on every cleanly processed module set of the composition, grouping, composite and late-collision universes.", ""),
- "C06": ("4 (C06)", "For every grouping body of the stated universe, defined locally or in another module and used in two containers, a list and a third module: each instance equals the body written inline (processed by a fresh set), names bind in the defining scope, instances share no node, list attributes or child map, and a default replacement, list-attribute deviation and augment aimed at one instance (every subset, fresh set) leave all other instances identical.", ""),
- "C07": ("4 (C07)", "Every augment of the composition universe (two augmenting modules, chains across three modules, targets created by uses, submodule, choice/case, written and unwritten rpc input/output, notification) is present exactly once at its place with the augmenting module's namespace, nothing is left unapplied, and a second run in another load order gives the same dump; collisions, leaf targets and missing targets with symbolic names must be reported; chains of 4 (thorough 5) augments in one or two modules in every declaration order must be fully applied.", ""),
- "C08": ("4 (C08)", "Every single deviate statement (thorough: pairs, in written order) of every kind naming every property, on six kinds of target, with and without the ignore option, is compared with a reference application of RFC 7950 7.20.3 whose pre-state comes from the run without the deviating module; every untargeted node must be identical in both runs; the listed unappliable cases must be reported; deviations may be written in a submodule of the deviating module; sequences of deviation statements (a deviation after the removal of its target) follow a sequential reference.", ""),
- "C11": ("4 (C11)", "Identities with symbolic names (every equality pattern) placed in a module, its submodule and an importing module, with bases spelled with and without prefixes (own, import, unknown): the Values of every identity must be exactly the transitive closure (Warshall over symbolic edge terms) once each, undefined bases and cycles must be reported, the identityref leaf must point at the named identity.", "order determinism of Values under map iteration is C05's subject"),
- "C12": ("4 (C12)", "ReadOnly, Namespace and InstantiatingModule of every node of every schema of the composition universe are compared with values computed from the source structure alone (nearest explicit config, rpc output, module whose text placed the node).", ""),
- "C17": ("4 (C17)", "On every schema of the composition universe and on the composite schema: for every (start, target) pair the absolute prefixed path (prefix taken from the start's defining module) and the relative path with .. steps must return the very node (pointer identity); every absolute path with one step replaced by a non-existent name - an unrelated one and the two near misses with a symbolic letter before/after the real name - must return nil, also when a .. step follows the non-existent one.", ""),
- "C09": ("4 (C09)", "A reference lexical binder decides, as terms over symbolic typedef names at seven definition sites, which typedef a reference at five sites in four spellings must bind to; the resolved kind must be that site's, unresolvable references must be errors. A second harness checks units/default nearest-wins, pattern accumulation per leaf and nearest length over all 2^16 presence patterns of a three-level chain; a third all cycles/unknowns over three typedefs, a fourth the members of unions (written order, structurally identical members once).", ""),
- "C13": ("4 (C13)", "Revision binding for every triple of module headers with 0..2 revisions in every load order (bare name, name@rev, import with/without revision-date); the file chooser findInDir/findFile over a directory model with files drawn from 11 candidate names; include == inline for every partition of eight definitions into module and two submodules (direct and nested include).", "ioutil.ReadDir is a harness directory model on the engine side; one known finding (mixed revisioned/unrevisioned name) is reported as KNOWN-FINDING"),
- "C18": ("4 (C18)", "Every sequence of 4 (thorough 5) operations over nine texts (three good, two with processing errors, four rejected in different ways) and process: after every process the error list and dump must equal the batch run of the accepted texts on a fresh set inside the same path.", "known traces of history are reported as KNOWN-FINDING"),
- "C05": ("4 (C05)", "Self-composition: the pipeline runs twice inside one path on fresh sets that differ in load order and in the iteration order of the library's maps, which the engine makes a symbolic choice (one perturbed range event per path, all permutations of maps with up to 4 entries, at any position); the outcomes (sorted duplicate-free error list, or the full dump) must be equal.", "native replay cannot choose map orders: it repeats the run 150 times"),
- "C01": ("4 (C01)", "Every implicit run-time check of Go (nil dereference, bounds, nil-map write, type assertion, explicit panic) on every feasible path of the driven code is a solver-decided assertion, and depth/step budgets flag non-termination candidates that are confirmed natively: generic parsing of every ASCII text of 4 (thorough 5) bytes, the number/range parsers on every short string over their alphabet, a resolution universe of self- and mutually recursive groupings at any nesting, 14 kinds of augment target, include/import cycles and absent modules with read-back of everything returned, and a failed-load history. The property's 'all byte strings' is not reached: the claim is per family and bounded.", "wall-clock behaviour on large inputs is outside the technique"),
+ "C06": ("4 (C06)", "For every grouping body of the stated universe, defined locally or in another module and used in two containers, a list and a third module: each instance equals the body written inline (processed by a fresh set), names bind in the defining scope, instances share no node, list attributes or child map, and a default replacement, list-attribute deviation and augment aimed at one instance (every subset, fresh set) leave all other instances identical; statements kept verbatim (if-feature) are per copy; a grouping of the same name in another module, a use below another module's augment and a prefix bound differently by a module and its submodule resolve as written.", ""),
+ "C07": ("4 (C07)", "Every augment of the composition universe (two augmenting modules, chains across three modules, targets created by uses, submodule, choice/case, written and unwritten rpc input/output, notification) is present exactly once at its place with the augmenting module's namespace, nothing is left unapplied, and a second run in another load order gives the same dump; collisions (also of one grouping used by two augments), leaf, anydata, rpc-node and missing targets with symbolic names must be reported; chains of 4 (thorough 5) augments in one or two modules in every declaration order must be fully applied.", ""),
+ "C08": ("4 (C08)", "Every single deviate statement (thorough: pairs, in written order) of every kind naming every property, on six kinds of target, with and without the ignore option, is compared with a reference application of RFC 7950 7.20.3 whose pre-state comes from the run without the deviating module; every untargeted node must be identical in both runs; the listed unappliable cases (five spellings of an unresolvable replacement type among them) must be reported; deviations may be written in a submodule of the deviating module; sequences of deviation statements (a deviation after the removal of its target) follow a sequential reference.", ""),
+ "C11": ("4 (C11)", "Identities with symbolic names (every equality pattern) placed in a module, its submodule and an importing module, with bases spelled with and without prefixes (own, import, unknown): the Values of every identity must be exactly the transitive closure (Warshall over symbolic edge terms) once each, undefined bases and cycles must be reported, the identityref leaf must point at the named identity. H11dia: a diamond with equally named identities in three modules and a union of identityrefs to them under solver-chosen load and map iteration orders.", "order determinism of Values under map iteration is C05's subject"),
+ "C12": ("4 (C12)", "ReadOnly, Namespace and InstantiatingModule of every node of every schema of the composition universe are compared with values computed from the source structure alone (nearest explicit config - on containers, leaves, lists and choices -, rpc output, module whose text placed the node); H12late: a module that joins the set after earlier lookups.", ""),
+ "C17": ("4 (C17)", "On every schema of the composition universe and on the composite schema: for every (start, target) pair the absolute prefixed path (prefix taken from the start's defining module) and the relative path with .. steps must return the very node (pointer identity); every absolute path with one step replaced by a non-existent name - an unrelated one and the two near misses with a symbolic letter before/after the real name - must return nil, also when a .. step follows the non-existent one. H17rev: two revisions of the target module with the importer naming none, the older or the newer one.", ""),
+ "C09": ("4 (C09)", "A reference lexical binder decides, as terms over symbolic typedef names at seven definition sites, which typedef a reference at five sites in four spellings must bind to; the resolved kind must be that site's, unresolvable references must be errors. A second harness checks units/default nearest-wins, pattern accumulation per leaf and nearest length over all 2^16 presence patterns of a three-level chain; a third all cycles/unknowns over three typedefs, a fourth the members of unions (written order, structurally identical members once; different bits types and enumerations are different), further ones the inheritance of enum/bit sets, fraction-digits with the scaled range, path and union members through 1..3 typedef levels (H09d), empty-string units/defaults (H09e), two references to one name from different scopes (H09two) and cycles through a mutually importing module (H09c).", ""),
+ "C13": ("4 (C13)", "Revision binding for every triple of module headers with 0..2 revisions in every load order (bare name, name@rev, import with/without revision-date); the file chooser findInDir/findFile over a directory model with files drawn from 11 candidate names; include == inline for every partition of eight definitions into module and two submodules (direct and nested include), seen from the module and from an importer; revisions that arrive after a processing run (H13late).", "ioutil.ReadDir, os.Stat and os.Lstat are a harness directory model on the engine side; one known finding (mixed revisioned/unrevisioned name) is reported as KNOWN-FINDING"),
+ "C18": ("4 (C18)", "Every sequence of 4 (thorough 5) operations over nine texts (three good, two with processing errors, four rejected in different ways) and process: after every process the error list and dump must equal the batch run of the accepted texts on a fresh set inside the same path. H18rev: revisions arriving late without any typedef involved; H18disk: modules that a processing run fetches itself from the search path, and files offered again after being repaired (file system = harness model behind the package's own seams).", "known traces of history are reported as KNOWN-FINDING"),
+ "C05": ("4 (C05)", "Self-composition: the pipeline runs twice inside one path on fresh sets that differ in load order and in the iteration order of the library's maps, which the engine makes a symbolic choice (one perturbed range event per path, all permutations of maps with up to 4 entries, reverse or rotation for 5..12 entries, at any position); the outcomes (sorted duplicate-free error list, or the full dump) must be equal. H05sort decides the error sorter as a kernel (numeric line/column order, duplicates removed); H05cli renders the types and tree formatters twice under the same exploration.", "native replay cannot choose map orders: it repeats the run 150 times"),
+ "C01": ("4 (C01)", "Every implicit run-time check of Go (nil dereference, bounds, nil-map write, type assertion, explicit panic) on every feasible path of the driven code is a solver-decided assertion, and depth/step budgets flag non-termination candidates that are confirmed natively: generic parsing of every ASCII text of 4 (thorough 5) bytes, the number/range parsers on every short string over their alphabet, a resolution universe of self- and mutually recursive groupings at any nesting, 14 kinds of augment target, uses of groupings defined nowhere or behind absent imports, include/import cycles and absent modules with read-back of everything returned, typedef cycles through unions and through a mutually importing module, and failed-load histories (rejected submodules, modules and non-module texts leaving typedefs behind). The property's 'all byte strings' is not reached: the claim is per family and bounded.", "wall-clock behaviour on large inputs is outside the technique"),
 }
 
 NOT_APPLICABLE = {
